@@ -109,8 +109,16 @@ func (v *Vue) evalSlot(ctx VueContext, node *html.Node, slotScope *SlotScope) ([
 				}
 				result = append(result, children...)
 			} else {
-				// Use the provided content as-is
-				result = append(result, slotContent.Nodes...)
+				// Evaluate a private copy of the provided content for this use
+				copies := make([]*html.Node, 0, len(slotContent.Nodes))
+				for _, n := range slotContent.Nodes {
+					copies = append(copies, helpers.DeepCloneNode(n))
+				}
+				evaluated, err := v.evaluate(ctx, copies, 0)
+				if err != nil {
+					return nil, err
+				}
+				result = append(result, evaluated...)
 			}
 
 			return result, nil
